@@ -92,8 +92,8 @@ def strings_oracle(res, seed, n):
     from peppercompiler.design import PIL_DNA_classes
     rng = core.rng_for(seed, "c11-strings")
     codes = sorted(DNA_classes.group)
-    for i in range(n):
-        s = "".join(rng.choice(codes) for _ in range(rng.randint(0, 40)))
+    for i in range(n + len(codes)):
+        s = "".join(rng.choice(codes) for _ in range(rng.randint(0, 40))) if i >= len(codes) else codes[i]   # every single code first
         res.evaluations += 1
         res.nontriv(("str", s))
         for fn, nm in ((DNA_classes.wc, "DNA_classes.wc"), (PIL_DNA_classes.seq_comp, "PIL_DNA_classes.seq_comp")):
@@ -103,6 +103,20 @@ def strings_oracle(res, seed, n):
                 ok = False
             if not ok:
                 res.violations.append({"what": "%s(%s(s)) != s" % (nm, nm), "input": {"s": s}, "sig": "C11:wcwc:%s" % nm})
+            # the function itself (not only the table it is supposed to use): position i of the reverse complement denotes
+            # exactly the complements of the bases position len-1-i of s denotes
+            try:
+                r = fn(s)
+                grp = DNA_classes.group
+                bad = len(r) != len(s) or any(set(grp[r[len(s) - 1 - k]]) != {COMP[b] for b in grp[s[k]]} for k in range(len(s)))
+            except Exception:
+                bad = True
+            if bad:
+                k = next((k for k in range(len(s)) if fn(s[k]) not in DNA_classes.group or
+                          set(DNA_classes.group[fn(s[k])]) != {COMP[b] for b in DNA_classes.group[s[k]]}), None) if len(s) else None
+                res.violations.append({"what": "%s(s) does not denote the reverse complement of s%s" % (nm, "" if k is None else " (code %s -> %s)" % (s[k], fn(s[k]))),
+                                       "input": {"s": s}, "sig": "C11:wc-denotation:%s" % nm,
+                                       "cmd": "python3 -c 'from peppercompiler.DNA_classes import wc; print(wc(%r))'" % s})
         if i == 0:
             res.sample({"string": s, "wc": DNA_classes.wc(s)})
 
